@@ -430,43 +430,53 @@ def jsonify(x):
 
 def run_json(types, tier, res):
     for t in types:
-        for vmode in cons.VMODES:
-            v = xt.gen(t, vmode)
+        for vmode in list(cons.VMODES) + ["extreme:wide"]:
+            # extreme:wide - the extreme values with three items along every dynamic axis (the largest and the smallest numbers
+            # of a kind side by side in one array; the plain extreme alphabet gives one-dimensional arrays a single item)
+            v = xt.gen(t, "extreme", dynext=(3, 3, 3)) if vmode == "extreme:wide" else xt.gen(t, vmode)
             if not xt.py_expressible(t, v):
                 continue
-            f = cons.feats(t, vmode, "py", "ctx")
-            cid = dict(part="json", type=t, type_str=xt.show(t), vmode=vmode)
-            try:
-                x = xt.construct(t, xt.to_py(t, v))
-                if not xt.veq(xt.read(t, x), v):
-                    res.skipped["initial-readback(C01's business)"] += 1
+            # the object whose JSON form is taken is built from plain data, and from NumPy arrays where the type has arrays of
+            # numbers: the round trip is judged from any object that reads back what it was given
+            for src in ("py", "nd"):
+                if src == "nd" and not (xt.has_scalar_array(t) and xt.nd_ok(t, v, "nd")):
                     continue
-            except Exception as e:
-                res.skipped["construct(C01's business):" + common.exc_failure(e)] += 1
-                continue
-            res.cases += 1
-            res.transitions += 2
-            res.events["to_json"] += 1
-            try:
-                j = x._to_json()
-            except Exception as e:
-                res.violations.append(common.violation("C19.to_json", "to_json-raises:" + common.exc_failure(e), f, cid, repr(e)))
-                continue
-            for form, arg in (("raw", j), ("decoded", jsonify(j))):
-                try:
-                    y = xt.construct(t, arg)
-                    got = xt.read(t, y)
-                except Exception as e:
-                    res.violations.append(common.violation("C19.json-roundtrip", "rebuild-raises:" + common.exc_failure(e), dict(f, json_form=form), cid, "%r ; json=%r" % (e, str(j)[:300])))
-                    break
-                res.oracles["json-roundtrip"] += 1
-                if not xt.veq(got, v):
-                    res.violations.append(common.violation("C19.json-roundtrip", "rebuilt-object-differs", dict(f, json_form=form), cid, "first difference at %r: %s" % xt.vdiff(got, v)))
-                    break
-            else:
-                res.outcomes["ok:json"] += 1
-                res.states += 1
+                json_case(t, vmode, v, src, res)
 
+
+def json_case(t, vmode, v, src, res):
+    f = cons.feats(t, vmode, src, "ctx")
+    cid = dict(part="json", type=t, type_str=xt.show(t), vmode=vmode, source=src)
+    try:
+        x = xt.construct(t, xt.to_py(t, v) if src == "py" else xt.to_nd(t, v, "nd"))
+        if not xt.veq(xt.read(t, x), v):
+            res.skipped["initial-readback(C01's business)"] += 1
+            return
+    except Exception as e:
+        res.skipped["construct(C01's business):" + common.exc_failure(e)] += 1
+        return
+    res.cases += 1
+    res.transitions += 2
+    res.events["to_json"] += 1
+    try:
+        j = x._to_json()
+    except Exception as e:
+        res.violations.append(common.violation("C19.to_json", "to_json-raises:" + common.exc_failure(e), f, cid, repr(e)))
+        return
+    for form, arg in (("raw", j), ("decoded", jsonify(j))):
+        try:
+            y = xt.construct(t, arg)
+            got = xt.read(t, y)
+        except Exception as e:
+            res.violations.append(common.violation("C19.json-roundtrip", "rebuild-raises:" + common.exc_failure(e), dict(f, json_form=form), cid, "%r ; json=%r" % (e, str(j)[:300])))
+            break
+        res.oracles["json-roundtrip"] += 1
+        if not xt.veq(got, v):
+            res.violations.append(common.violation("C19.json-roundtrip", "rebuilt-object-differs", dict(f, json_form=form), cid, "first difference at %r: %s" % xt.vdiff(got, v)))
+            break
+    else:
+        res.outcomes["ok:json"] += 1
+        res.states += 1
 
 def run_shard(shard, tier, seed):
     res = common.ShardResult()
